@@ -268,6 +268,8 @@ def replay(obj):
     tab = Table(); qs = []
     q = t.index("Q")
     for op in t[1:q]:
+        if op == "N":
+            continue
         parts = op[1:].split(":")
         if op[0] == "+":
             tab.add(int(parts[0]), pv.unhex(parts[1]).decode(), int(parts[2]))
